@@ -45,6 +45,19 @@ def run_internal(rep, tier):
                     fails.append({"stream": "c01-internal", "package": d, "build_argument": arg, "wire_gen.go": gen[:2000],
                                   "why": ["wire gen succeeded for %s (wire.Build(%s)) but the package does not compile: %s"
                                           % (d, arg, (outb + errb).strip()[-300:])]})
+            if rc == 0 and inside:
+                # the same package named by a list of its files (synthetic path command-line-arguments): same verdict, same bytes
+                gp = ws.root + "/" + d + "/wire_gen.go"
+                ref = open(gp).read() if os.path.exists(gp) else None
+                rc2, out2, err2 = ws.wire(["gen", "p.go", "wire.go"], cwd=ws.root + "/" + d)
+                got = open(gp).read() if os.path.exists(gp) else None
+                rep.evaluations += 1
+                if rc2 != 0 or got != ref:
+                    fails.append({"stream": "c01-internal", "package": d, "build_argument": arg,
+                                  "why": ["`wire gen .` accepts %s, but `wire gen p.go wire.go` in the same directory %s: %s"
+                                          % (d, "fails" if rc2 != 0 else "writes different bytes", err2.strip()[-300:])]})
+            if rc == 0:
+                pass
             elif inside:
                 fails.append({"stream": "c01-internal", "package": d, "build_argument": arg,
                               "why": ["%s lies inside the tree of the internal package and may import it, but wire rejects it: %s" % (d, err.strip()[-300:])]})
